@@ -27,6 +27,9 @@ DataLayouts == <<
    atoms |-> << [n |-> 17, s |-> FALSE, need |-> 17] >>]
 >>
 
+\* explicit sequences for MC_Framing ({} = all singles and all sequences of representatives)
+DataSeqs == {}
+
 \* frames for Gen_Framing: [codec, len, rep, fields = << [role, vals] >>]
 GenFrames == <<
   [codec |-> "lane_req_raw_value", len |-> 12, rep |-> TRUE, fields |-> << [role |-> "tag", vals |-> 2], [role |-> "len", vals |-> 3] >>],
